@@ -102,11 +102,15 @@ C01a(cx, s) ==
 (***************************************************************************)
 (* C02  Every input of a job is materialised when the job is offered       *)
 (***************************************************************************)
+(* An Output that was validly skipped (it is materialised and up to date) and is only later
+   RELABELLED upstream-failed because one of its own upstreams failed afterwards did finish
+   without failure: the relabelling is reporting, it takes nothing back (DESIGN.md section 7). *)
 C02a(cx, s) ==
   V(Alive(s) /\ s.ready # {},
     \A j \in s.ready : \A u \in Ups(cx.c, j) :
-       /\ u \notin s.failed \cup s.upf
-       /\ s.jst[u] \in SuccessStates \cup SkippedStates)
+       /\ u \notin s.failed \cup (s.upf \ s.skipev)
+       /\ \/ s.jst[u] \in SuccessStates \cup SkippedStates
+          \/ (u \in s.skipev /\ s.jst[u] = "O:FinishedUpstreamFailure"))
 C02b(cx, s) ==
   V(Alive(s) /\ s.ready # {},
     \A j \in s.ready : \A u \in Ups(cx.c, j) :
@@ -130,6 +134,19 @@ C03a(cx, s) ==
     \A j \in cx.N \ (s.started \cup s.failed \cup s.upf \cup AbortedSet(cx, s) \cup cx.leafy) :
        /\ UTDobs(cx, s, j)
        /\ (cx.c.kind[j] = "O" => j \in DOMAIN s.file /\ s.file[j] # Garbage))
+
+(* The same, judged on GROUND TRUTH kept by the world across the whole chain of evaluations
+   instead of on the engine's own records (which a defect may have forged): built[j][u] is the
+   output of u that j's last successful execution really consumed, dirty the jobs a failed or
+   interrupted attempt has touched since. *)
+C03b(cx, s) ==
+  V(Alive(s) /\ s.fin /\ cx.c.truth /\ cx.c.conv = "ids",
+    \A j \in cx.N \ (s.started \cup s.failed \cup s.upf \cup AbortedSet(cx, s) \cup cx.leafy) :
+       /\ j \in DOMAIN cx.c.built
+       /\ j \notin ToSet(cx.c.dirty)
+       /\ DOMAIN cx.c.built[j] = Ups(cx.c, j)
+       /\ \A u \in Ups(cx.c, j) :
+             u \in DOMAIN s.outs /\ ~Altered(cx.c, j, cx.c.built[j][u], s.outs[u]))
 
 (***************************************************************************)
 (* C04  Only necessary work is executed                                    *)
@@ -339,7 +356,7 @@ C17a(cx, s) ==
 C17b(cx, s) ==
   V(Alive(s),
     s.running = IF s.aborted THEN {} ELSE s.started \ (s.succ \cup s.faildel \cup s.changed))
-C17c(cx, s) == V(Alive(s), s.failed = s.faildel \cup s.changed)
+C17c(cx, s) == V(Alive(s), s.failed = s.faildel \cup s.changed /\ s.estarted = s.started)
 C17d(cx, s) == V(Alive(s), s.upf \cap s.started = {})
 C17e(cx, s) ==
   V(Alive(s), s.cleanup \subseteq {j \in s.succ : cx.c.kind[j] = "E"} \ s.cleaned)
